@@ -114,13 +114,13 @@ type tickerRec struct {
 
 // Sched is the scheduler of one simulated run.
 type Sched struct {
-	epoch   uint64
-	tabMu   sync.Mutex // protects tasks slice growth against lookups from natively woken goroutines
-	tasks   []*Task
-	tickers []*tickerRec
+	epoch     uint64
+	tabMu     sync.Mutex // protects tasks slice growth against lookups from natively woken goroutines
+	tasks     []*Task
+	tickers   []*tickerRec
 	timers    []*Timer    // see timers.go
 	deadlines []time.Time // see timers.go
-	schedG  int64
+	schedG    int64
 
 	Current  *Task // task that was released last
 	obsHeld  []*Mutex
